@@ -65,5 +65,21 @@ PROPS = {
         "trusted_base": ["Model/VSwitch.lean (hand-written)", "hook pkg/vswitch/zz_verif_export.go (injectable clock)"],
         "design_ref": "DESIGN.md §4 C17",
     },
+    "C15": {
+        "lean": ["C15"],
+        "required": ["C15.c15_bandwidth_total", "C15.c15_bandwidth_unitless", "C15.c15_bandwidth_monotone", "C15.c15_units_ordered", "C15.c15_unit_table"],
+        "rule": "(1) parseBandwidth on the product of 32 numeric forms x 28 unit spellings x 3 paddings, plus random well-formed / near-valid / raw-byte / long-digit strings: "
+                "outcome (ok value | err | panic) compared with the Lean model; the value where float64 is exact (< 2^52 and equal to the big.Rat floor), the class elsewhere; "
+                "(2) monotone unit ladders B<K<M<G<T on the implementation; (3) monitor-only fuzz under recover of convertPod + pod-networks parsers, NUMA hints + RequestNetworkIndex, "
+                "MergeConfigAndUnmarshal/Populate/Validate, parseResourceID, BuildIPNet/ToIPSet/ToIPNetSet. non-trivial = accepted bandwidth value; distinct = distinct op line.",
+        "technique": "Lean 4 totality / acceptance / monotonicity theorems over a rune-level model of parseBandwidth (slice panics modelled) with a regenerated guard fact; differential correspondence; recover-based search on other parsers",
+        "level_text": "Theorem: for every rune string and every letter/space/upper-case table, parseBandwidth does not panic (given the regenerated fact that the i<0 guard is present); digit strings are accepted as bytes; "
+                      "values are monotone in the unit multiplier and the multipliers are ordered. The other user-input parsers (JSON annotations, NUMA hints, ConfigMap merge, stored ids, IP sets) are only searched for panics, not proved: partial.",
+        "level_note": "Trusted: Lean kernel; Model/Bandwidth.lean hand-written, ParseFloat modelled on letter-free input only (sign, digits, one dot) with exact rational arithmetic - float64 rounding and the float->uint64 conversion above 2^63 are outside the model; "
+                      "non-ASCII input is outside the driver's domain (the totality theorem itself is table-independent). Panics inside encoding/json, yaml, strconv, net are library behaviour, searched not proved.",
+        "assumptions": ["strconv.ParseFloat accepts exactly sign/digits/one dot on letter-free input and never panics", "encoding/json, net.ParseCIDR, jsonpatch do not panic"],
+        "trusted_base": ["Model/Bandwidth.lean (hand-written)", "hooks pkg/k8s, pkg/eni, pkg/controller/pod-eni zz_verif_export.go"],
+        "design_ref": "DESIGN.md §4 C15",
+    },
 }
 NOT_APPLICABLE = {}
